@@ -217,6 +217,22 @@ Proof.
   split; [exact sph2image_is_source|exact jacobian_is_source].
 Qed.
 
+(* ... and so is the control flow of image2sky and of sky2image(find=False): per projection, which of
+   CD matrix and distortion polynomial is applied first and what the distortion switch does (the
+   translator refuses a tree in which (u, v) can be read before it is assigned). *)
+Theorem C10_control_flow_is_source :
+  (forall w x y distort,
+     pix2inter w x y distort =
+     src_pix2inter (apply_cd (w_hdr w)) (distort_with (d_name (w_dist w)) (d_a (w_dist w)) (d_b (w_dist w)))
+                   (distort && has_dist w) (is_sip (h_proj (w_hdr w))) x y (h_crpix1 (w_hdr w)) (h_crpix2 (w_hdr w)))
+  /\ (forall fit w s lon lat distort,
+     snd (sky2image_direct fit w s lon lat distort) =
+     let uv := sph2image w lon lat in
+     src_inter2pix (apply_cdinv (w_hdr w)) (fun a b => snd (distort_inverse fit w s a b))
+                   (distort && has_dist w) (is_sip (h_proj (w_hdr w))) (fst uv) (snd uv)
+                   (h_crpix1 (w_hdr w)) (h_crpix2 (w_hdr w))).
+Proof. split; [exact pix2inter_is_source|exact sky2image_direct_is_source]. Qed.
+
 (* Non-vacuity: concrete distorted headers meet the hypotheses used above. *)
 Definition ex_header (p : proj) : header :=
   {| h_proj := p; h_crpix1 := 100; h_crpix2 := 200; h_crval1 := 359; h_crval2 := 89;
